@@ -29,6 +29,10 @@ pub enum Mut {
     SectionRel { nth: u8, field: u8, delta: i16 },
     /// every stream length of a data packet set to zero
     PacketZeroStreams { cloud: u8, nth: u8 },
+    /// a data packet overwritten by a chain of overlapping data packet headers: each declares a packet length of
+    /// `step` bytes (just its own header) while its first byte stream covers the rest of the chain, so that the
+    /// bytes at start + declared length parse as the next header
+    PacketChain { cloud: u8, nth: u8, step: u8 },
     /// XML length attribute of a blob and its section header length inflated consistently
     BlobInflate { nth: u8, length: u64 },
     /// replace the nth numeric token of the XML
@@ -139,11 +143,12 @@ pub fn gen_script(s: &mut Src) -> Script {
     let mut muts = Vec::new();
     for _ in 0..n {
         muts.push(match s.weighted(&[3, 5, 5, 2, 2, 2, 3, 1, 1, 1, 4, 5, 2, 3, 1, 1, 1]) {
-            0 => match s.weighted(&[3, 2, 1, 1]) {
+            0 => match s.weighted(&[3, 2, 1, 1, 1]) {
                 0 => Mut::Header { field: s.below(4) as u8, value: u64_pool(s, len_hint) },
                 1 => Mut::HeaderRel { field: s.below(3) as u8, delta: *s.pick(&[-1025i16, -1024, -1023, -5, -4, -3, -2, -1, 0, 1, 4, 1020, 1024]) },
                 2 => Mut::PacketZeroStreams { cloud: s.below(3) as u8, nth: s.below(4) as u8 },
-                _ => Mut::BlobInflate { nth: s.below(4) as u8, length: *s.pick(&[9999u64, 1 << 20, 1 << 40, u64::MAX - 16, u64::MAX]) },
+                3 => Mut::BlobInflate { nth: s.below(4) as u8, length: *s.pick(&[9999u64, 1 << 20, 1 << 40, u64::MAX - 16, u64::MAX]) },
+                _ => Mut::PacketChain { cloud: s.below(3) as u8, nth: s.below(4) as u8, step: s.below(3) as u8 },
             },
             1 => Mut::XmlNumber { nth: s.below(200) as u16, with: s.pick(&NUMS).to_string() },
             2 => Mut::XmlAttr {
@@ -310,6 +315,34 @@ fn apply_mut(img: &mut Img, m: &Mut) {
                         let count = u16::from_le_bytes([img.log[p + 4], img.log[p + 5]]) as usize;
                         for k in 0..count.min(4096) {
                             put_u16(&mut img.log, p + 6 + 2 * k, 0);
+                        }
+                    }
+                }
+            }
+        }
+        Mut::PacketChain { cloud, nth, step } => {
+            if !img.clouds.is_empty() {
+                let c = &img.clouds[*cloud as usize % img.clouds.len()];
+                if !c.packet_starts.is_empty() {
+                    let p = c.packet_starts[*nth as usize % c.packet_starts.len()] as usize;
+                    if p + 6 <= img.log.len() && img.log[p] == 1 {
+                        let total = u16::from_le_bytes([img.log[p + 2], img.log[p + 3]]) as usize + 1;
+                        let count = u16::from_le_bytes([img.log[p + 4], img.log[p + 5]]) as usize;
+                        let h = 6 + 2 * count;
+                        let unit = (h + 3) / 4 * 4;
+                        let st = unit * (1 + *step as usize % 3);
+                        let end = (p + total).min(img.log.len());
+                        let mut o = p;
+                        while o + h <= end && count > 0 && count < 1000 {
+                            img.log[o] = 1;
+                            img.log[o + 1] = 0;
+                            put_u16(&mut img.log, o + 2, (st - 1) as u16);
+                            put_u16(&mut img.log, o + 4, count as u16);
+                            put_u16(&mut img.log, o + 6, (end - (o + h)).min(65535) as u16);
+                            for k in 1..count {
+                                put_u16(&mut img.log, o + 6 + 2 * k, 0);
+                            }
+                            o += st;
                         }
                     }
                 }
